@@ -1,10 +1,90 @@
 package checks
 
-import "verif/internal/core"
+import (
+	"fmt"
+	"strings"
 
-// c07Concurrent explores concurrent `sequence` commands (filled in by the SCHED engine).
+	"verif/internal/core"
+	"verif/internal/sched"
+)
+
+func init() {
+	schedJudges["C07"] = func(env *core.Env, sc sched.Scenario) func(*core.Worker, *sched.Exec) (string, string) {
+		return c07Judge(env, sc)
+	}
+}
+
+func c07Judge(env *core.Env, sc sched.Scenario) func(w *core.Worker, ex *sched.Exec) (string, string) {
+	serial := serialJudge(env, "C07", sc, false)
+	return func(w *core.Worker, ex *sched.Exec) (string, string) {
+		if ex.Blocked == "" && ex.Final != nil {
+			ex.Final.Materialize(w.Proj)
+			obs := core.ObserveW(w, w.Proj)
+			if obs.Fail == "" {
+				if msg := checkDepInvariants(obs); msg != "" {
+					return "C07 kind=concurrent-graph-invariant " + invClass(msg), msg
+				}
+			}
+		}
+		sig, d := serial(w, ex)
+		if strings.Contains(sig, "serializable-only-at-lock-section-granularity") {
+			// a chain that fails half-way keeps its earlier edges: that is the atomicity finding K3 of C02/C10; C07 only
+			// requires that the graph stays well-formed and that each edge is accepted/rejected correctly, which held
+			return "", ""
+		}
+		return sig, d
+	}
+}
+
+// c07Concurrent: every unordered pair of `sequence X Y` commands over 3 tasks (all 6 ordered edges, so 21
+// pairs incl. identical ones) and the three-process ring A>B || B>C || C>A, under every interleaving up to the bound.
 func c07Concurrent(env *core.Env, root core.Store, tasks []string) map[string]interface{} {
-	return map[string]interface{}{"status": "not built yet"}
+	var cmds []core.Req
+	var names []string
+	for i, a := range tasks {
+		for k, b := range tasks {
+			if i != k {
+				cmds = append(cmds, core.R("", "--json", "sequence", a, b))
+				names = append(names, fmt.Sprintf("seq-T%d-T%d", i, k))
+			}
+		}
+	}
+	st := newSchedStats()
+	var jobs []schedJob
+	add := func(name string, bound int, procs ...core.Req) {
+		sc := sched.Scenario{Name: name, Store: root, Procs: procs}
+		judge := c07Judge(env, sc)
+		jobs = append(jobs, schedJob{Sc: sc, Bound: bound, Judge: func(w *core.Worker, ex *sched.Exec) (string, string) {
+			sig, d := judge(w, ex)
+			var parts []string
+			for i, r := range ex.Results {
+				parts = append(parts, fmt.Sprintf("p%d:%d", i, r.Exit))
+			}
+			st.Outcomes.inc(name + " " + strings.Join(parts, ","))
+			if ex.Preempts == 2 {
+				st.Samples.add(map[string]interface{}{"scenario": name, "schedule": ex.Schedule()})
+			}
+			return sig, d
+		}})
+	}
+	bound := 2
+	if env.Thorough() {
+		bound = 3
+	}
+	for i := range cmds {
+		for k := i; k < len(cmds); k++ {
+			add(names[i]+"||"+names[k], bound, cmds[i], cmds[k])
+		}
+	}
+	add("ring T0>T1||T1>T2||T2>T0", 2, core.R("", "--json", "sequence", tasks[0], tasks[1]), core.R("", "--json", "sequence", tasks[1], tasks[2]), core.R("", "--json", "sequence", tasks[2], tasks[0]))
+	add("chain T0>T1>T2||T2>T0", 2, core.R("", "--json", "sequence", tasks[0], tasks[1], tasks[2]), core.R("", "--json", "sequence", tasks[2], tasks[0]))
+	add("seq||rm", 2, core.R("", "--json", "sequence", tasks[0], tasks[1]), core.R("", "--json", "sequence", "rm", tasks[0], tasks[1]))
+	exploreMany(env, st, "C07", jobs, 4)
+	return map[string]interface{}{
+		"scenarios": st.Scenarios, "schedules_executed": st.Executions, "bound_completed": st.BoundCompleted, "exhaustive": st.Exhaustive,
+		"distinct_outcome_vectors": st.Outcomes.len(), "sample_schedules": st.Samples.list,
+		"rule": "every unordered pair of `sequence X Y` over 3 tasks (21 pairs), the 3-process ring, chain vs closing edge, sequence vs sequence rm; every interleaving of the hooked store steps up to the preemption bound; oracle: final deps relation acyclic/mirrored + serial equivalence on the real implementation",
+	}
 }
 
 func schedExhaustive(m map[string]interface{}) bool {
